@@ -562,10 +562,41 @@ func init() {
 
 type c14Gen struct{ c *Ctx }
 
+// stationary: every script is a single answer (nothing, an error, or one event carrying the
+// requested ID) -- the provider is then a function of the requested ID and the specification
+// oracle applies
+func (b *c14Builder) stationary() bool {
+	for _, sc := range b.spec.Prov {
+		if len(sc.Answers) != 1 {
+			return false
+		}
+		a := sc.Answers[0]
+		if len(a) == 0 || (len(a) == 1 && a[0] == -1) {
+			continue
+		}
+		if len(a) != 1 || c14IDOf(gmsl.RoomVersion(b.spec.Ver), b.spec.Texts[a[0]]) != sc.ID {
+			return false
+		}
+	}
+	return true
+}
+
 func (g *c14Gen) run(b *c14Builder, desc string) []byte {
 	g.c.Count("op:" + b.spec.Op)
 	g.c.Count("ver:" + b.spec.Ver)
-	return g.c.Run("C14.run", b.args(), "C14."+b.spec.Op, "", desc)
+	prop := ""
+	switch b.spec.Op {
+	case "csr", "sj", "chain":
+		if b.stationary() {
+			prop = "C14.prop." + b.spec.Op
+		}
+	case "vras":
+		prop = "C14.prop.vras"
+	}
+	if prop != "" {
+		g.c.Count("oracle:" + b.spec.Op)
+	}
+	return g.c.Run("C14.run", b.args(), "C14."+b.spec.Op, prop, desc)
 }
 
 func (g *c14Gen) genState(h *c14History) {
